@@ -13,21 +13,21 @@ ufun("validator_ok", 4, "bool")
 ufun("resolve", 4, "int")
 
 spec("resolve_def(rm, request, context)", """
-    resolve(rm, seq(request), context, epoch()) == (
+    resolve(rm, seq(request), seq(context), epoch()) == (
         0 if len(request) == 0 or request[0] not in rm.request_types else (
-        1 if not validator_ok(rm.request_types[request[0]].validator, seq(request[1:]), context, epoch()) else (
-        resolve(rm.request_types[request[0]].func, seq(request[1:]), context, epoch())
+        1 if not validator_ok(rm.request_types[request[0]].validator, seq(request[1:]), seq(context), epoch()) else (
+        resolve(rm.request_types[request[0]].func, seq(request[1:]), seq(context), epoch())
             if isinstance(rm.request_types[request[0]].func, RequestManager) else 2)))
 """)
 
 contract(f"{C}::RequestPermissionValidator.__call__", verify=False,
          note="abstract method: base contract assumed here; every concrete validator is proved pure below",
-         ensures=["result == validator_ok(self, seq(request), context, epoch())"], modifies=[])
+         ensures=["result == validator_ok(self, seq(request), seq(context), epoch())"], modifies=[])
 
 contract(f"{C}::RequestManager.check_valid",
          props=["C11"],
          axioms=["resolve_def(self, request, context)"],
-         ensures=[("eq_resolve", "result == (resolve(self, seq(request), context, epoch()) == 2)")],
+         ensures=[("eq_resolve", "result == (resolve(self, seq(request), seq(context), epoch()) == 2)")],
          modifies=[], allocates=True)
 
 # RequestManager.__call__: answers 'unreachable' / 'failure' exactly when resolve says so, and then nothing that
@@ -35,13 +35,30 @@ contract(f"{C}::RequestManager.check_valid",
 contract(f"{C}::RequestManager.__call__",
          props=["C05", "C11", "C01"],
          axioms=["resolve_def(self, request, context)"],
-         ensures=[("unreachable", "implies(old(resolve(self, seq(request), context, epoch())) == 0,"
+         ensures=[("unreachable", "implies(old(resolve(self, seq(request), seq(context), epoch())) == 0,"
                                   " result.status == 'unreachable' and unchanged() and n_events() == old(n_events()))"),
-                  ("failure", "implies(old(resolve(self, seq(request), context, epoch())) == 1,"
+                  ("failure", "implies(old(resolve(self, seq(request), seq(context), epoch())) == 1,"
                               " result.status == 'failure' and unchanged() and n_events() == old(n_events()))"),
-                  ("refused_never_success", "implies(old(resolve(self, seq(request), context, epoch())) != 2, result.status != 'success')")],
+                  ("refused_never_success", "implies(old(resolve(self, seq(request), seq(context), epoch())) != 2, result.status != 'success')")],
          modifies=["heap"], allocates=True, dyn_classes=["RequestManager"], dyn_result="RequestResponse")
 
 contract(f"{C}::RequestPermissionValidator.fail_message", verify=False,
          note="abstract property: a message string, no effect (concrete overrides are string-returning one-liners)",
          ensures=[], modifies=[])
+
+# ---- registration -----------------------------------------------------------------------------------------------------
+contract(f"{C}::RequestManager.add_request", props=["C05", "C11"],
+         ensures=[("registered", "name in self.request_types and self.request_types[name] is request_type"),
+                  ("others_kept", "len(self.request_types) == old(len(self.request_types)) + (0 if old(name in self.request_types) else 1)")],
+         modifies=["self.request_types{*}"])
+contract(f"{C}::RequestManager.remove_request", props=["C05", "C11"],
+         ensures=[("unregistered", "name not in self.request_types"),
+                  ("one_fewer", "len(self.request_types) == old(len(self.request_types)) - 1")],
+         raises={"RuntimeError": "name not in self.request_types"},
+         raises_ensures=[("nothing_changed", "len(self.request_types) == old(len(self.request_types))")],
+         modifies=["self.request_types{*}"])
+contract(f"{C}::AllowAllValidator.__call__", props=["C05", "C11"], ensures=[("allows", "result == True")], modifies=[])
+# a combined rule passes exactly when every member rule passes
+contract(f"{C}::_CombinedValidator.__call__", props=["C05", "C11"],
+         ensures=[("conjunction", "result == forall(j, 0, len(self.validators), validator_ok(self.validators[j], seq(request), seq(context), epoch()))")],
+         modifies=[])
